@@ -93,7 +93,9 @@ def check(rep, tier, rng):
     model = run_driver(["cli %s %s" % (t3.hx(exe), " ".join(lib_out[a] for a in args)) for args in arglists])
     nviol, tie, distinct, kinds = 0, 0, set(), {}
     for args, m in zip(arglists, model):
-        p = subprocess.run([exe] + [os.path.join(d, a) for a in args], capture_output=True, timeout=120)
+        # arguments are passed as they are (relative to the working directory), so `-`, `--`, `` reach the program literally; stdin holds a
+        # valid specification, so a program that reads it shows a module nobody asked for
+        p = subprocess.run([exe] + list(args), capture_output=True, timeout=120, cwd=d, input=pool[1][1])
         # oracle straight from the property: concatenation of the library's texts + newline each, exit 0 / non-zero
         outs = [lib_out[a] for a in args]
         want_out, want_ok = b"", bool(args)
@@ -140,7 +142,7 @@ def replay(rep, r):
     os.makedirs(d)
     for a, t in r.get("files", {}).items():
         open(os.path.join(d, a), "wb").write(t.encode("latin1"))
-    p = subprocess.run([exe] + [os.path.join(d, a) for a in r.get("args", [])], capture_output=True)
+    p = subprocess.run([exe] + list(r.get("args", [])), capture_output=True, cwd=d, input=b"struct from_stdin { int a; };")
     print("exit", p.returncode, "stdout bytes", len(p.stdout))
     # the recorded observation was a violation: it persists if the binary still behaves the same way
     return 1 if (p.returncode == r.get("exit") and len(p.stdout) == r.get("stdout_len")) else 0
